@@ -44,4 +44,20 @@ func init() {
 			"unterminated quoted strings are outside Mediatype's claimed domain (not a media type)",
 		},
 	})
+	registerProp(&PropSpec{
+		ID:       "C15",
+		Patterns: []string{"."},
+		Units: []string{
+			modPath + ".(*M).MinifyMimetype", modPath + ".(*M).Minify", modPath + ".(*M).Match",
+			modPath + ".(*M).Add", modPath + ".(*M).AddFunc", modPath + ".(*M).AddCmd",
+			modPath + ".(*M).AddRegexp", modPath + ".(*M).AddFuncRegexp", modPath + ".(*M).AddCmdRegexp",
+		},
+		Notes: []string{
+			"abstract view: m.literal as a map from string CONTENT keys (uninterpreted ckey of the bytes) to Minifier values; m.pattern as a sequence; all registry states (any map/slice contents) are covered by the symbolic entry state",
+			"A-dep: parse.Mediatype is two uninterpreted functions u_mtType/u_mtParams of the media type string's content key (its splitting rules are not verified here)",
+			"A-std: regexp.(*Regexp).Match is an uninterpreted predicate p_matches(regexp identity, content key); sync.RWMutex methods are trace events only",
+			"the ghost call trace lists the calls made by each function itself (callee-internal calls are not part of it): 'writes nothing' for ErrNotExist means no call other than RLock/RUnlock is made",
+			"(Minifier).Minify is an extern with no frame (may modify anything); its error result is returned unchanged (id(res) == evres)",
+		},
+	})
 }
